@@ -60,6 +60,9 @@ impl Choice {
     pub fn is_fault(&self) -> bool {
         FAULTS.contains(self)
     }
+    pub fn from_name(s: &str) -> Option<Choice> {
+        LEGAL.iter().chain(FAULTS.iter()).copied().find(|c| format!("{:?}", c) == s)
+    }
 }
 
 #[derive(Clone, Debug, PartialEq, Eq)]
